@@ -90,6 +90,22 @@ CHECKS.update({
             "DESIGN.md section 4, C08"),
 })
 
+CHECKS.update({
+    "C11": ("exhaustive enumeration of VLAN set pairs x line splittings + Hypothesis sets over 1..4094; commands executed on a VLAN-set device model",
+            "All ordered pairs of subsets of a small universe, in every splitting over config lines, for six shipped rule kinds (device "
+            "and file front ends), plus random sets over 1..4094: the emitted add/remove commands are executed on a set model; the final "
+            "set must be S_new and no VLAN of S_old & S_new may disappear even transiently; expand/collapse helpers round-trip. "
+            "Exhaustive inside the bound, exploration outside.",
+            "Trusted: the VLAN device model and range helpers in vf/props/c11.py (independent of annet's helpers).",
+            "DESIGN.md section 4, C11"),
+    "C16": ("differential testing of the two front ends over the shipped corpus, its cross products and Hypothesis trees synthesised from shipped rule lines",
+            "File front end (_read_old_new_diff_patch and the real file_patch_worker/file_diff_worker on temp files) against device front "
+            "end (_diff_and_patch) on the 192 shipped pairs, cross products and generated trees with partially changed lists: command "
+            "streams, stripped diffs and diff texts must be equal. Differential exploration.",
+            "Trusted: none beyond equality of the two production paths; identical errors on both sides count as agreement.",
+            "DESIGN.md section 4, C16"),
+})
+
 NOT_YET = {}
 
 
